@@ -679,6 +679,22 @@ let ext_ref_oracle (f : fmt) (r : string) (evs : event list) (verdict : string) 
        end);
   !o
 
+(* validation of the L0 specification Json/Spec.v itself: it must agree with Go's encoding/json
+   (the independent reference on the harness side) on every document both decide *)
+let json_spec_check (doc : z list) (r : string) : string option =
+  let spec = json_decode_all parse_float_oracle (nat_of_int 70) doc in
+  match ref_values r, spec with
+  | `Values want, Some got ->
+      if List.length want = List.length got && List.for_all2 json_equiv want got then None
+      else Some "Json/Spec.v and encoding/json assign different values"
+  | `Values _, None ->
+      (* encoding/json accepts: the spec must too, unless a number is outside what it decides *)
+      (match json_decode parse_float_oracle doc with
+       | RUnsupported -> None
+       | _ -> if List.length (String.split_on_char '_' r) > 60 then None else Some "Json/Spec.v rejects a text encoding/json accepts")
+  | `Err, Some _ -> Some "Json/Spec.v accepts a text encoding/json rejects"
+  | _, _ -> None
+
 let parse_case (f : fmt) (input : string) (obs0 : string) : verdict =
   let obs, flagl = split_flags_all obs0 in
   let flags = match List.filter (fun x -> starts_with x "C02 ") flagl with x :: _ -> x | [] -> "" in
@@ -712,6 +728,14 @@ let parse_case (f : fmt) (input : string) (obs0 : string) : verdict =
       | _ -> oracle := [ ("C03", "parser crashed: " ^ impl) ]);
       (if flags <> "" then
          match words flags with p :: m -> oracle := (p, "chunked run differs from whole-buffer run: " ^ String.concat " " m) :: !oracle | [] -> ());
+      let model =
+        if f.fname = "json" && vfail < 0 then
+          (match find_flag "REF" flagl with
+           | Some r -> (match (try json_spec_check (List.concat chunks) r with Unknown_float -> None) with
+               | Some why -> "SPEC-MISMATCH " ^ why
+               | None -> model)
+           | None -> model)
+        else model in
       { model = (match depth with Some d -> model ^ " D " ^ d | None -> model); oracle = !oracle }
   | _ -> failwith "parse: bad input"
 
